@@ -48,8 +48,11 @@ def drop(tag):
     shutil.rmtree(d, ignore_errors=True)
 
 
-def suite(d):
-    rc, out = sh("cargo test --offline 2>&1", cwd=d, env={"CARGO_TARGET_DIR": TARGET})
+def suite(d, guard=False):
+    env = {"CARGO_TARGET_DIR": TARGET + ("-on" if guard else "")}
+    if guard:
+        env["RUSTFLAGS"] = "--cfg walleye_verif"
+    rc, out = sh("cargo test --offline 2>&1", cwd=d, env=env)
     m = re.search(r"test result: (\w+)\. (\d+) passed; (\d+) failed", out)
     return (m.group(1), int(m.group(2)), int(m.group(3))) if m else ("build-failed", 0, 0), out
 
@@ -61,7 +64,8 @@ def run_demo(d, outdir, n):
         rc, out = sh("git apply %s" % demo_diff, cwd=d)
         if rc != 0:
             return None, "demo diff does not apply: " + out
-        (res, passed, failed), out = suite(d)
+        guard = "walleye_verif" in open(demo_diff).read()
+        (res, passed, failed), out = suite(d, guard)
         sh("git apply -R %s" % demo_diff, cwd=d)
         return (res == "ok" and failed == 0), "suite+demo: %s %d passed %d failed" % (res, passed, failed)
     for ext, runner in ((".sh", "bash"), (".py", "python3")):
